@@ -142,6 +142,7 @@ func runC40(c *eng.Ctx) {
 			return fs.Cond == nil && fs.Init == nil && fs.Post == nil
 		}, 1)
 	}
+	c.SiblingsEqual("R2", Q+".AppendHistograms", Q+".AppendFloatHistograms", sibRenames, nil)
 	// ---- R3 shard choice, locks, hand-over of batches ----
 	{
 		f := c.Fn("storage/remote:shards.enqueue")
